@@ -29,10 +29,21 @@ pub enum NumClass {
     SignedZero,
     Subnormal,
     Integers,
+    /// one vector of magnitude ~1e-9, the other of magnitude ~1e4: norms on both sides of every "too small" cut-off,
+    /// while every product and quotient the definitions need stays a normal float
+    MixedScale,
 }
 
-const NUM_CLASSES: [NumClass; 7] =
-    [NumClass::Uniform, NumClass::Cancel, NumClass::Tiny, NumClass::Huge, NumClass::SignedZero, NumClass::Subnormal, NumClass::Integers];
+const NUM_CLASSES: [NumClass; 8] = [
+    NumClass::Uniform,
+    NumClass::Cancel,
+    NumClass::Tiny,
+    NumClass::Huge,
+    NumClass::SignedZero,
+    NumClass::Subnormal,
+    NumClass::Integers,
+    NumClass::MixedScale,
+];
 
 fn gen_pair(class: NumClass, n: usize, seed: u64) -> (Vec<f32>, Vec<f32>) {
     let mut m = Mix::new(seed ^ ((n as u64) << 32));
@@ -81,6 +92,11 @@ fn gen_pair(class: NumClass, n: usize, seed: u64) -> (Vec<f32>, Vec<f32>) {
                 (s(&mut m), s(&mut m))
             }
             NumClass::Integers => ((m.below(17) as i32 - 8) as f32, (m.below(17) as i32 - 8) as f32),
+            NumClass::MixedScale => {
+                let s1 = if m.chance(0.5) { -1.0 } else { 1.0 };
+                let s2 = if m.chance(0.5) { -1.0 } else { 1.0 };
+                ((s1 * (1.0 + m.unit()) * 2f64.powi(-30)) as f32, (s2 * (1.0 + m.unit()) * 2f64.powi(13)) as f32)
+            }
         };
         a.push(x);
         b.push(y);
